@@ -1,5 +1,5 @@
 (* C10 — exit status 0 means complete, final-named output; any failure leaves none. Pinned statements only: each theorem is closed by `exact` of a lemma proved in theories/. *)
-From RBP Require Import Bytes Model CsvP.
+From RBP Require Import Bytes Model CsvP NamesP.
 From RBP Require Drive Merkle Utxo Stats OutProto Reader Published Misc.
 
 Theorem C10_failure_no_final :
@@ -26,9 +26,19 @@ Theorem C10_file_is_its_rows :
   forall (i : nat) (ws : list (nat * bytes)), OutProto.data_for i ws = concat (rows_of i ws).
 Proof. exact data_for_rows. Qed.
 
+Theorem C10_final_name_never_tmp_name :
+  forall (st : bytes) (s e : N) (st' : bytes), final_name st s e <> tmp_name st'.
+Proof. exact final_name_not_tmp. Qed.
+
+Theorem C10_csv_names_distinct :
+  forall s e : N, s < 2 ^ 64 -> e < 2 ^ 64 -> NoDup (map tmp_name Published.csv_stems ++ map (fun st : bytes => final_name st s e) Published.csv_stems).
+Proof. exact csv_names_distinct. Qed.
+
 Print Assumptions C10_failure_no_final.
 Print Assumptions C10_success_complete.
 Print Assumptions C10_success_content.
 Print Assumptions C10_crash_prefix_safe.
 Print Assumptions C10_input_error_aborts_before_completion.
 Print Assumptions C10_file_is_its_rows.
+Print Assumptions C10_final_name_never_tmp_name.
+Print Assumptions C10_csv_names_distinct.
